@@ -19,7 +19,7 @@ WAL_STEPS = ["CallBegin", "StepEntry", "StepWrite", "StepFlush", "StepFsync", "S
 MC_CLEAN = dict(coverage=False, name="MC_Clean", module="MC_Wal.tla", cfg="MC_Clean_quick.cfg", cfg_thorough="MC_Clean.cfg",
                 expect_actions=WAL_STEPS + ["Restart"], timeout=3000)
 MC_CRASH = dict(coverage=False, name="MC_Crash", module="MC_Wal.tla", cfg="MC_Crash_quick.cfg", cfg_thorough="MC_Crash.cfg",
-                expect_actions=WAL_STEPS + ["CrashProcess"], expect_actions_thorough=WAL_STEPS + ["CrashProcess", "StepOpenNext"],
+                expect_actions=WAL_STEPS + ["CrashProcess"], expect_actions_thorough=WAL_STEPS + ["CrashProcess"],
                 timeout=7000)
 MC_POLICY = dict(coverage=False, name="MC_Policy", module="MC_Wal.tla", cfg="MC_Policy_quick.cfg", cfg_thorough="MC_Policy.cfg",
                  expect_actions=WAL_STEPS + ["CrashProcess", "CrashPower"], timeout=7000)
